@@ -51,6 +51,9 @@ const (
 	codeStr      = "vrf-c06-001"
 	codeID       = "conncode_vrfc06"
 	expireTTL    = 150 * time.Millisecond // activation TTL of behaviours that contain an Expire step
+	codeTTL      = time.Hour              // activation TTL of all other behaviours
+	tickJump     = 30 * time.Minute       // a Tick: this much time passes - less than the code can still be activated
+	probeProc    = "a5"                   // the quiescent probe activation (a client of its own)
 
 	kCode   = "tunnox:runtime:conncode:code:"
 	kCodeID = "tunnox:runtime:conncode:id:"
@@ -228,6 +231,7 @@ func newRig(free bool, backend string, node2, sameAs []string, ttl time.Duration
 		for _, p := range node2 {
 			r.node2[p] = true
 		}
+		r.node2[probeProc] = true
 	default:
 		cancel()
 		return nil, fmt.Errorf("unknown backend %q", backend)
@@ -354,6 +358,10 @@ func (r *rig) gateOf(p, a string) (gate, bool) {
 		return gate{"RemoveFromList", "mappings_list", ""}, true
 	case "RelClaim":
 		return gate{"Delete", "claim", ""}, true
+	case "RstC":
+		return gate{"Set", "code_by_code", ""}, true
+	case "RstI":
+		return gate{"Set", "code_by_id", ""}, true
 	}
 	return gate{}, false
 }
@@ -425,6 +433,30 @@ func (r *rig) dropCodeKeys() {
 	}
 }
 
+// timeJump realises the model's Tick on the store doubles: tickJump passes, i.e. every key that was written with
+// a lifetime of at most tickJump is gone (all writes of a behaviour happen within milliseconds). The code itself
+// (lifetime codeTTL, checked by wall clock) can still be activated, and so must its claim.
+func (r *rig) timeJump() {
+	for _, st := range r.stores {
+		st.ExpireWhere(func(k string, ttl time.Duration) bool { return ttl <= tickJump })
+	}
+}
+
+// probe: once everything has returned, one more activation by a client of its own (through node n2 where there
+// is one). Whatever happened before, it must not succeed on a code that was used, revoked or has expired.
+func (r *rig) probe(log func(fw.Event)) {
+	log(r.callEvent(probeProc))
+	res := r.activate(probeProc)
+	r.mu.Lock()
+	hits := r.hits
+	r.hits = nil
+	r.mu.Unlock()
+	for _, h := range hits {
+		log(fw.Event{"ev": "Fault", "at": h})
+	}
+	log(retEvent(probeProc, res))
+}
+
 // finalEvent: every port-mapping record in any tier (what a Get through a node would find), and the
 // state of the code record.
 func (r *rig) finalEvent() (fw.Event, error) {
@@ -482,7 +514,7 @@ func drive(env *fw.Env, b fw.Behaviour) *fw.Trace {
 			hasExpire = true
 		}
 	}
-	ttl := time.Hour
+	ttl := codeTTL
 	if hasExpire {
 		ttl = expireTTL
 	}
@@ -535,6 +567,7 @@ func drive(env *fw.Env, b fw.Behaviour) *fw.Trace {
 			}
 		}
 		lateExpire()
+		r.probe(func(e fw.Event) { t.Events = append(t.Events, e) })
 		fe, err := r.finalEvent()
 		if err != nil {
 			return &fw.Trace{Status: fw.DriverError, Note: err.Error()}
@@ -579,6 +612,13 @@ func drive(env *fw.Env, b fw.Behaviour) *fw.Trace {
 			r.dropCodeKeys()
 			expired = true
 			t.Events = append(t.Events, fw.Event{"ev": "Expire"})
+			continue
+		case st.A == "Tick":
+			if hasExpire {
+				return &fw.Trace{Status: fw.DriverError, Note: "Tick in a behaviour with a short activation TTL"}
+			}
+			r.timeJump()
+			t.Events = append(t.Events, fw.Event{"ev": "Tick"})
 			continue
 		case st.A == "Call":
 			if started[st.P] {
@@ -642,7 +682,7 @@ func drive(env *fw.Env, b fw.Behaviour) *fw.Trace {
 // file order is sound real-time order.
 func driveFree(env *fw.Env, beh behaviour) *fw.Trace {
 	rnd := fw.NewRand(env.Seed*100003 + int64(beh.Seed))
-	ttl := time.Hour
+	ttl := codeTTL
 	if beh.Expire {
 		ttl = time.Duration(2+rnd.Intn(6)) * time.Millisecond
 	}
@@ -753,6 +793,7 @@ func driveFree(env *fw.Env, beh behaviour) *fw.Trace {
 	// by its own clock reading): wait for the logger - at most the few milliseconds of the TTL
 	wgExp.Wait()
 	close(stopExp)
+	r.probe(log)
 	fe, err := r.finalEvent()
 	if err != nil {
 		return &fw.Trace{Status: fw.DriverError, Note: err.Error()}
@@ -775,6 +816,9 @@ type genCfg struct {
 	clocal   bool   // model variant: the claim key lives in each node's local cache tier
 	same     string // TLA+ set of the activators that submit as a1's listen client (default {})
 	reclaim  bool   // model variant: idempotent re-claim by the same client
+	reset    bool   // model variant: a failed final Update also writes the stale record back as not activated
+	tick     bool   // time may pass (Tick) by less than the code's remaining lifetime
+	short    bool   // model variant: the claim key's TTL is shorter than the code's remaining lifetime
 	rig      string // "" = drive on both rigs, else only on "double" / "nodes2"
 	emit     bool
 	invs     string
@@ -819,49 +863,62 @@ func (c genCfg) job() fw.TLCJob {
 		Consts: map[string]string{"ACTS": actsSet(c.acts), "REV": tf(c.rev), "EXP": tf(c.exp), "FAULT": fmt.Sprint(c.fault),
 			"PRE": c.pre, "QUOTA": fmt.Sprint(c.quota), "CLAIM": tf(c.repaired), "CRB": tf(c.repaired), "EMIT": tf(c.emit),
 			"NODE2": c.node2, "CLOCAL": tf(c.clocal), "SAME": c.same, "RECLAIM": tf(c.reclaim),
+			"RESET": tf(c.reset), "TICK": tf(c.tick), "SHORT": tf(c.short),
 			"VIEW": view, "INVS": c.invs}}
 }
 
 const (
-	invStrict   = "AtMostOneMapping AtMostOneSuccess SuccessWasValid FailedLeavesNone FieldsOK NoLegacyDev ClaimExcludes LockOK"
-	invRepaired = "AtMostOneMappingR AtMostOneSuccess SuccessWasValid FailedLeavesNoneR FieldsOK NoLegacyDev ClaimExcludes"
-	invAsIs     = "AtMostOneMappingD AtMostOneSuccessD SuccessWasValid FailedLeavesNoneD FieldsOK"
-	invLocal    = "AtMostOneMappingL AtMostOneSuccessL SuccessWasValid FailedLeavesNone FieldsOK"
-	invReclaim  = "AtMostOneMappingQ AtMostOneSuccessQ SuccessWasValid FailedLeavesNone FieldsOK LockOK"
+	invStrict   = "AtMostOneMapping AtMostOneSuccess SuccessWasValid FailedLeavesNone FieldsOK NoLegacyDev ClaimExcludes LockOK NoActivationAfterDeath"
+	invRepaired = "AtMostOneMappingR AtMostOneSuccess SuccessWasValid FailedLeavesNoneR FieldsOK NoLegacyDev ClaimExcludes NoActivationAfterDeath"
+	invAsIs     = "AtMostOneMappingD AtMostOneSuccessD SuccessWasValid FailedLeavesNoneD FieldsOK NoActivationAfterDeath"
+	invLocal    = "AtMostOneMappingL AtMostOneSuccessL SuccessWasValid FailedLeavesNone FieldsOK NoActivationAfterDeath"
+	invReset    = "AtMostOneMapping AtMostOneSuccess SuccessWasValid NoActivationAfterDeathZ FailedLeavesNone FieldsOK LockOK"
+	invShort    = "AtMostOneMappingT AtMostOneSuccessT SuccessWasValid NoActivationAfterDeath FailedLeavesNone FieldsOK LockOK"
+	invReclaim  = "AtMostOneMappingQ AtMostOneSuccessQ SuccessWasValid FailedLeavesNone FieldsOK LockOK NoActivationAfterDeath"
 )
 
 var genTable = map[string]genCfg{}
 
 func genJobs(tier string) []genCfg {
 	p1 := `{"a1"}`
+	// quick: the primary sources (the step structure of the code as it is)
 	jobs := []genCfg{
-		// repaired design (the step structure of the code with the atomic claim)
 		{name: "gen:race", acts: 2, rev: true, pre: p1, quota: 2, repaired: true},
 		{name: "gen:fault", acts: 2, fault: 1, pre: p1, quota: 2, repaired: true},
 		{name: "gen:expire", acts: 2, rev: true, exp: true, pre: p1, quota: 2, repaired: true},
 		{name: "gen:expfault", acts: 1, exp: true, fault: 1, pre: `{}`, quota: 2, repaired: true},
-		{name: "gen:quota", acts: 2, pre: `{"a2"}`, quota: 1, repaired: true},
 		// the SAME listen client submits twice (a1, a2) while a third client (a3) races: on one node the second
 		// submit waits on the per-client quota lock; through two nodes the two submits interleave freely
 		{name: "gen:twin1", acts: 3, pre: `{}`, quota: 3, repaired: true, same: `{"a2"}`, node2: `{}`, rig: "double"},
 		{name: "gen:twin2", acts: 3, pre: `{}`, quota: 3, repaired: true, same: `{"a2"}`, node2: `{"a2"}`, rig: "nodes2"},
 		{name: "gen:twinfault", acts: 2, fault: 1, pre: `{}`, quota: 3, repaired: true, same: `{"a2"}`, node2: `{}`, rig: "double"},
-		// the code as it was before the repair: read-check-create-update without a claim
-		{name: "legacy:race", acts: 2, rev: true, pre: p1, quota: 2},
-		{name: "legacy:fault", acts: 1, fault: 1, pre: `{}`, quota: 2},
-		// a design whose claim key is node-local (each node's SetNX wins in its own cache): two nodes both
-		// activate. Unrealisable while the real hybrid routes the real claim key to the shared tier.
-		{name: "legacy:localclaim", acts: 2, pre: `{}`, quota: 2, repaired: true, clocal: true, node2: `{"a2"}`, rig: "nodes2"},
-		// a design with "idempotent re-claim" (a lost SetNX counts as won when the key holds the caller's client id):
-		// the same client's second submit succeeds too. Unrealisable while the code refuses every lost claim.
-		{name: "legacy:reclaim", acts: 2, pre: `{}`, quota: 3, repaired: true, same: `{"a2"}`, node2: `{}`, reclaim: true, rig: "double"},
+		// a revoke interleaved with an activation that suffers a write fault (the quiescent probe is the later activator)
+		{name: "gen:revfault", acts: 1, rev: true, fault: 1, pre: `{}`, quota: 2, repaired: true},
+		// time passes (less than the code's remaining lifetime) at any point of two racing activations
+		{name: "gen:tick", acts: 2, tick: true, pre: `{}`, quota: 2, repaired: true},
 	}
 	if tier == "thorough" {
 		jobs = append(jobs,
+			genCfg{name: "gen:quota", acts: 2, pre: `{"a2"}`, quota: 1, repaired: true},
 			genCfg{name: "gen:race3", acts: 3, rev: true, pre: p1, quota: 2, repaired: true},
 			genCfg{name: "gen:all2", acts: 2, rev: true, exp: true, fault: 1, pre: p1, quota: 2, repaired: true},
+			genCfg{name: "gen:revfault2", acts: 2, rev: true, fault: 1, pre: `{}`, quota: 2, repaired: true},
+			genCfg{name: "gen:revtick", acts: 2, rev: true, tick: true, pre: p1, quota: 2, repaired: true},
+			// behaviours of designs the code does not (or no longer) have: they leave the real code's schedule at the
+			// first difference (and are then finished free-running and judged like everything else)
+			// - the code before the repair: read-check-create-update without a claim
+			genCfg{name: "legacy:race", acts: 2, rev: true, pre: p1, quota: 2},
+			genCfg{name: "legacy:fault", acts: 1, fault: 1, pre: `{}`, quota: 2},
 			genCfg{name: "legacy:race3", acts: 3, pre: p1, quota: 2},
 			genCfg{name: "legacy:expfault", acts: 1, exp: true, fault: 1, pre: `{}`, quota: 2},
+			// - a node-local claim key (each node's SetNX wins in its own cache)
+			genCfg{name: "legacy:localclaim", acts: 2, pre: `{}`, quota: 2, repaired: true, clocal: true, node2: `{"a2"}`, rig: "nodes2"},
+			// - "idempotent re-claim" (a lost SetNX counts as won when the key holds the caller's client id)
+			genCfg{name: "legacy:reclaim", acts: 2, pre: `{}`, quota: 3, repaired: true, same: `{"a2"}`, node2: `{}`, reclaim: true, rig: "double"},
+			// - a rollback that writes the stale record back after a failed final Update (erasing a revoke)
+			genCfg{name: "legacy:reset", acts: 2, rev: true, fault: 1, pre: `{}`, quota: 2, repaired: true, reset: true},
+			// - a claim key that lives shorter than the code
+			genCfg{name: "legacy:shortclaim", acts: 2, tick: true, short: true, pre: `{}`, quota: 2, repaired: true},
 		)
 	}
 	for i := range jobs {
@@ -1001,23 +1058,23 @@ func main() {
 		ModelJobs: func(env *fw.Env) []fw.TLCJob {
 			p1 := `{"a1"}`
 			jobs := []genCfg{
-				// repaired design, every invariant strict: races + revoke + expiry; races + single write fault
-				{name: "mc:repaired:race+revoke+expire", acts: 2, rev: true, exp: true, pre: p1, quota: 2, repaired: true, invs: invStrict},
+				// the design the code has, every invariant strict: races + revoke + expiry + time passing; races + single write fault
+				{name: "mc:repaired:race+revoke+expire+tick", acts: 2, rev: true, exp: true, tick: true, pre: p1, quota: 2, repaired: true, invs: invStrict},
 				{name: "mc:repaired:race+revoke+fault", acts: 2, rev: true, fault: 1, pre: p1, quota: 2, repaired: true, invs: invStrict},
-				// repaired design, expiry AND a write fault: holds modulo the residual deviation "rbLost"
+				// expiry AND a write fault: holds modulo the residual deviation "rbLost"
 				{name: "mc:repaired:all", acts: 2, rev: true, exp: true, fault: 1, pre: p1, quota: 2, repaired: true, invs: invRepaired},
-				// the code as it was: the properties hold only modulo the named deviations
-				{name: "mc:asis:all", acts: 2, rev: true, exp: true, fault: 1, pre: p1, quota: 2, invs: invAsIs},
-				// two nodes with a node-local claim: the properties hold only modulo the deviation "localClaim"
-				{name: "mc:localclaim", acts: 2, rev: true, pre: p1, quota: 2, repaired: true, clocal: true, node2: `{"a2"}`, invs: invLocal},
-				// the same client submits twice (+ a third client, + revoker, + expiry): strict, on one node and on two
+				// the same client submits twice (+ a third client, + revoker): strict, on one node and on two
 				{name: "mc:twin:1node", acts: 3, rev: true, pre: `{}`, quota: 3, repaired: true, same: `{"a2"}`, node2: `{}`, invs: invStrict},
 				{name: "mc:twin:2nodes", acts: 3, rev: true, pre: `{}`, quota: 3, repaired: true, same: `{"a2"}`, node2: `{"a2"}`, invs: invStrict},
-				// idempotent re-claim: holds only modulo the deviation "reclaim"
-				{name: "mc:reclaim", acts: 2, rev: true, pre: `{}`, quota: 3, repaired: true, same: `{"a2"}`, node2: `{}`, reclaim: true, invs: invReclaim},
 			}
 			if env.Tier == "thorough" {
 				jobs = append(jobs,
+					// designs the code does not (or no longer) have: the properties hold only modulo their named deviations
+					genCfg{name: "mc:asis:all", acts: 2, rev: true, exp: true, fault: 1, pre: p1, quota: 2, invs: invAsIs},
+					genCfg{name: "mc:localclaim", acts: 2, rev: true, pre: p1, quota: 2, repaired: true, clocal: true, node2: `{"a2"}`, invs: invLocal},
+					genCfg{name: "mc:shortclaim", acts: 2, rev: true, tick: true, short: true, pre: p1, quota: 2, repaired: true, invs: invShort},
+					genCfg{name: "mc:reset", acts: 2, rev: true, fault: 1, pre: `{}`, quota: 2, repaired: true, reset: true, invs: invReset},
+					genCfg{name: "mc:reclaim", acts: 2, rev: true, pre: `{}`, quota: 3, repaired: true, same: `{"a2"}`, node2: `{}`, reclaim: true, invs: invReclaim},
 					genCfg{name: "mc:twin:1node:expire", acts: 3, rev: true, exp: true, pre: `{}`, quota: 3, repaired: true, same: `{"a2"}`, node2: `{}`, invs: invStrict, workers: 16},
 					genCfg{name: "mc:twin:2nodes:expire+fault", acts: 3, rev: true, exp: true, fault: 1, pre: `{}`, quota: 3, repaired: true, same: `{"a2"}`, node2: `{"a2"}`, invs: invRepaired + " LockOK", workers: 16, timeout: 20 * time.Minute},
 					genCfg{name: "mc:repaired:3act:race+revoke+expire", acts: 3, rev: true, exp: true, pre: p1, quota: 2, repaired: true, invs: invStrict, workers: 16},
@@ -1112,6 +1169,8 @@ func main() {
 			case "gen:all2":
 				return 10000
 			case "legacy:race3":
+				return 6000
+			case "gen:revfault2", "legacy:reset":
 				return 6000
 			}
 			return 0
